@@ -1,4 +1,5 @@
 import MgpuModel.Util
+import MgpuModel.C01_Emu
 /-! # C01 — kernel-argument marshalling of the driver
 
 Model of `amd/driver/kernel.go`: `createAQLPacket`, `prepareLocalMemory` and the
@@ -112,6 +113,8 @@ def handle (line : String) : String :=
                                 co := co, ka := ka, fields := fs }
       s!"gss={p.groupSegmentSize} grid={p.gridX},{p.gridY},{p.gridZ} wg={p.wgX},{p.wgY},{p.wgZ} co={p.kernelObject} ka={p.kernargAddress} img={bytesHex img}"
     | _, _, _, _, _, _ => "bad"
+  | "c01" :: "emu" :: _ => Emu.handle line
+  | "c01" :: "copycode" :: _ => Emu.handle line
   | _ => "bad"
 
 end C01
